@@ -2,14 +2,24 @@
    Only statements closed by [exact]; proofs live in proof/S3PathsProofs.v.
 
    `calls fx q` is the faithful model of the filer-facing calls the S3 gateway makes
-   for request q (every object / multipart / copy / tagging / batch-delete route)
-   against a filer holding the entries fx; `effective` is the path the filer acts on
-   for a call (ServeMux 301 + followed redirect, util.JoinPath cleaning, or the raw
-   string); `all_contained` says that every such path, cleaned, is the bucket
-   directory or lies inside it (copy-source calls: the source bucket's directory),
-   including every directory the empty-folder purge of a batch delete may remove. *)
+   for request q (every object / multipart / copy / tagging / batch-delete / listing /
+   bucket / POST-upload route) against a filer holding the entries fx; `candidates fx q`
+   are the data dependent calls it may make besides (empty-folder purge of a batch
+   delete, descent of a listing); `effective` is the path the filer acts on for a call
+   (ServeMux 301 + followed redirect, util.JoinPath cleaning, or the raw string);
+   `call_contained` says that this path, cleaned, is the bucket directory or lies inside
+   it (copy-source calls: the source bucket's directory).
+
+   Trigger sets (decidable, on the request alone):
+     req_climbs q          one of the strings the route builds its paths from, taken
+                           relative to the bucket directory, climbs above it in a lexical
+                           walk ("" and "." skipped, ".." pops) — finding 0;
+     req_enters_uploads q  an object route whose walk climbs or puts ".uploads" directly
+                           below the bucket directory at some point — finding 1;
+     bad_bucket b          the bucket name is "", ".", "..", or has "/" or "%" — finding 2;
+     req_noslash q         a POST upload whose key does not begin with "/" — finding 3. *)
 From Coq Require Import List NArith Bool String.
-From SW Require Import model.S3List model.S3Paths proof.S3PathsProofs.
+From SW Require Import model.S3List model.S3Paths proof.S3PathsProofs proof.S3PathsCompat.
 Import ListNotations.
 Local Open Scope string_scope.
 
@@ -24,27 +34,60 @@ Theorem c29_contained_refuted : exists fx q,
 Proof. exact contained_refuted. Qed.
 Print Assumptions c29_contained_refuted.
 
-(* ... and so do batch delete, abort-upload (upload id "../../other"), tagging and copy. *)
+(* ... and so do batch delete, abort-upload (upload id "../../other"), tagging, copy and
+   listing (prefix "../other/"). *)
 Theorem c29_contained_refuted_routes :
   all_contained fx_demo esc_get = false /\ all_contained fx_demo esc_batch = false /\
   all_contained fx_demo esc_abort = false /\ all_contained fx_demo esc_tag = false /\
-  all_contained fx_demo esc_copy = false.
+  all_contained fx_demo esc_copy = false /\ all_contained fx_demo esc_list = false.
 Proof. exact contained_refuted_all. Qed.
 Print Assumptions c29_contained_refuted_routes.
 
-(* Strongest true statement: without a ".." segment in the key, the upload id, the
-   copy source (after the decodings the routes apply) or a batch key, every path of
-   every route stays inside the bucket directory — for every fixture. *)
+(* Strongest true statement: unless one of the route's relative strings CLIMBS above the
+   bucket directory (a ".." segment that stays inside, as in x/../y, is fine), every
+   path of every route stays inside the bucket directory — for every fixture. *)
 Theorem c29_contained_partial : forall fx q,
-  bad_bucket (q_bucket q) = false -> req_dotdot q = false -> all_contained fx q = true.
-Proof. exact contained_partial. Qed.
+  bad_bucket (q_bucket q) = false -> req_climbs q = false -> req_noslash q = false ->
+  forallb call_contained (calls fx q) = true.
+Proof. exact calls_contained_partial. Qed.
 Print Assumptions c29_contained_partial.
 
+(* the data dependent calls: the empty-folder purge after a batch delete and the
+   directories a listing descends into (the fixture's names must be ordinary names) *)
+Theorem c29_candidates_contained_partial : forall fx q,
+  bad_bucket (q_bucket q) = false -> req_climbs q = false ->
+  (route_needs_plain_fx (q_route q) = true -> fx_plain fx = true) ->
+  candidates_contained fx q = true.
+Proof. exact candidates_contained_partial. Qed.
+Print Assumptions c29_candidates_contained_partial.
+
+(* calls and purge together, as in the first version of this file *)
+Theorem c29_all_contained_partial : forall fx q,
+  bad_bucket (q_bucket q) = false -> req_climbs q = false -> req_noslash q = false ->
+  (forall k, In k (q_keys q) -> climbs k = false) ->
+  all_contained fx q = true.
+Proof. exact contained_partial2. Qed.
+Print Assumptions c29_all_contained_partial.
+
+(* The former, purely syntactic statement (no ".." segment anywhere) is a corollary:
+   on the routes it was stated for, its trigger set contains the new one. *)
+Theorem c29_trigger_narrowed : forall q,
+  old_route (q_route q) = true -> bad_bucket (q_bucket q) = false ->
+  req_dotdot q = false -> req_climbs q = false /\ req_noslash q = false.
+Proof. exact dotdot_covers_climbs. Qed.
+Print Assumptions c29_trigger_narrowed.
+
+Theorem c29_contained_partial_dotdot : forall fx q,
+  old_route (q_route q) = true ->
+  bad_bucket (q_bucket q) = false -> req_dotdot q = false -> all_contained fx q = true.
+Proof. exact contained_partial. Qed.
+Print Assumptions c29_contained_partial_dotdot.
+
 (* The cleaning lemma behind it: lexical cleaning of  <bucket dir>/<rest>  never climbs
-   above the bucket directory when <rest> has no ".." segment. *)
+   above the bucket directory when the walk of <rest> does not. *)
 Theorem c29_clean_stays_under : forall b rest,
-  bad_bucket b = false -> has_dotdot rest = false -> contained b (bucket_dir b ++ "/" ++ rest) = true.
-Proof. exact clean_stays_under. Qed.
+  bad_bucket b = false -> climbs rest = false -> contained b (bucket_dir b ++ "/" ++ rest) = true.
+Proof. exact clean_stays_under2. Qed.
 Print Assumptions c29_clean_stays_under.
 
 Theorem c29_clean_idempotent : forall p, starts_with_slash p = true -> clean (clean p) = clean p.
@@ -59,24 +102,89 @@ Print Assumptions c29_clean_no_dots.
 (* The multipart area: keys inside <bucket>/.uploads ARE addressable as ordinary
    objects (GET /b/.uploads/u1/0001.part): REFUTED ... *)
 Theorem c29_uploads_hidden_refuted : exists fx q,
-  bad_bucket (q_bucket q) = false /\ req_dotdot q = false /\ object_route (q_route q) = true /\
+  bad_bucket (q_bucket q) = false /\ req_climbs q = false /\ object_route (q_route q) = true /\
   uploads_hidden fx q = false.
 Proof. exact uploads_hidden_refuted. Qed.
 Print Assumptions c29_uploads_hidden_refuted.
 
-(* ... and the strongest true statement: an object route whose key, copy source and
-   batch keys have neither a ".." nor a ".uploads" segment never touches the area. *)
+(* ... also through a key with a ".." segment that does not climb: this request is inside
+   the trigger set of finding 1 and outside that of finding 0 *)
+Theorem c29_uploads_hidden_refuted_dotdot :
+  req_dotdot up_get2 = true /\ req_climbs up_get2 = false /\ req_enters_uploads up_get2 = true /\
+  all_contained fx_demo up_get2 = true /\ uploads_hidden fx_demo up_get2 = false.
+Proof. exact uploads_hidden_refuted_dotdot. Qed.
+Print Assumptions c29_uploads_hidden_refuted_dotdot.
+
+(* ... and the strongest true statement, under ONE hypothesis on the request: an object
+   route whose walk neither climbs nor passes through ".uploads" never touches the area *)
 Theorem c29_uploads_hidden_partial : forall fx q,
+  bad_bucket (q_bucket q) = false -> q_bucket q <> ".uploads" ->
+  req_enters_uploads q = false -> req_noslash q = false -> uploads_hidden fx q = true.
+Proof. exact uploads_hidden_partial2. Qed.
+Print Assumptions c29_uploads_hidden_partial.
+
+(* neither does the empty-folder purge of its batch keys *)
+Theorem c29_purge_hidden : forall b keys,
+  bad_bucket b = false -> (forall k, In k keys -> enters_uploads k = false) ->
+  existsb (fun c => call_in_uploads (b, c)) (purge_candidates b keys) = false.
+Proof. exact purge_hidden. Qed.
+Print Assumptions c29_purge_hidden.
+
+(* the former statement of this clause, as a corollary *)
+Theorem c29_uploads_hidden_partial_dotdot : forall fx q,
+  old_route (q_route q) = true ->
   bad_bucket (q_bucket q) = false -> q_bucket q <> ".uploads" ->
   req_dotdot q = false -> req_uploads_seg q = false -> uploads_hidden fx q = true.
 Proof. exact uploads_hidden_partial. Qed.
-Print Assumptions c29_uploads_hidden_partial.
+Print Assumptions c29_uploads_hidden_partial_dotdot.
+
+(* Finding 2: the bucket name itself.  DELETE /. recursively deletes /buckets, GET
+   /../etc/secret is served from /etc/secret: REFUTED for bucket names that are not
+   ordinary names; every partial theorem above assumes bad_bucket = false. *)
+Theorem c29_bad_bucket_refuted :
+  bad_bucket (q_bucket bad_delete) = true /\
+  map snd (calls fx_demo bad_delete) = [GLookup "/buckets" "."; GDelete "/buckets" "." true] /\
+  effective (GDelete "/buckets" "." true) = Some "/buckets" /\
+  bad_bucket (q_bucket bad_get) = true /\
+  map (fun c => effective (snd c)) (calls fx_demo bad_get) = [None; Some "/etc/secret"].
+Proof. exact bad_bucket_refuted. Qed.
+Print Assumptions c29_bad_bucket_refuted.
+
+(* Finding 3: the POST upload joins bucket and key without "/": POST /oth with
+   key = er/obj writes /buckets/other/obj.  REFUTED without any ".." *)
+Theorem c29_postpolicy_refuted :
+  bad_bucket (q_bucket post_noslash) = false /\ req_climbs post_noslash = false /\ req_noslash post_noslash = true /\
+  map snd (calls fx_demo post_noslash) = [Http MPut "/buckets/other/obj"] /\
+  forallb call_contained (calls fx_demo post_noslash) = false.
+Proof. exact postpolicy_refuted. Qed.
+Print Assumptions c29_postpolicy_refuted.
 
 (* non-vacuity: an ordinary request with "." and empty segments satisfies the
    hypotheses, produces a call, and is contained *)
 Example c29_example :
   let q := rq RPutTag "x/./y//z" "" "" [] in
   bad_bucket (q_bucket q) = false /\ req_dotdot q = false /\ req_uploads_seg q = false /\
+  req_climbs q = false /\ req_enters_uploads q = false /\ req_noslash q = false /\
   map snd (calls fx_demo q) = [GLookup "/buckets/b/x/./y/" "z"] /\
   all_contained fx_demo q = true /\ uploads_hidden fx_demo q = true.
 Proof. exact partial_nonvacuous. Qed.
+Print Assumptions c29_example.
+
+(* a key with ".." segments that never climbs is covered by the narrowed theorems *)
+Example c29_example_narrowed :
+  let q := rq RDelTag "x/../x/z/../y" "" "" [] in
+  req_dotdot q = true /\ req_climbs q = false /\ req_enters_uploads q = false /\
+  map (fun c => effective (snd c)) (calls fx_demo q) = [Some "/buckets/b/x/y"] /\
+  all_contained fx_demo q = true.
+Proof. exact narrowed_nonvacuous. Qed.
+Print Assumptions c29_example_narrowed.
+
+(* a listing with a marker chain: its heads, what it may descend into, all contained *)
+Example c29_example_list :
+  let q := rq (RList true "x/" "z/w" true) "" "" "" [] in
+  fx_plain fx_demo = true /\ req_climbs q = false /\
+  map snd (calls fx_demo q) = [GList "/buckets/b/x/z"; GList "/buckets/b/x"] /\
+  candidates fx_demo q = [GLookup "/buckets" "b"; GList "/buckets/b/x/z"; GDelete "/buckets/b/x" "z" true] /\
+  candidates_contained fx_demo q = true.
+Proof. exact list_nonvacuous. Qed.
+Print Assumptions c29_example_list.
